@@ -71,7 +71,7 @@ def func_judge(case):
     bg = case.get("bg")
     translucent = case["kind"] in ("rgba", "rgbap", "hsla")
     if translucent:
-        bg_rgb = (255, 255, 255) if bg is None else ocss.read_rgb(gc.dec(bg))
+        bg_rgb = (255, 255, 255) if bg is None else next(iter(ocss.read_input_set(gc.dec(bg))))
         got = _parse_both(s, None if bg is None else gc.dec(bg))
         exact = ocss.composite((r, g, b, a), bg_rgb)
         tol = F(3, 2)
